@@ -45,6 +45,8 @@ WORKLOADS = [
     ('rmsec', [STATE], ['rmtsec 0 74 %s' % hx(b'one'), 'rmnsec 0 6d 0', 'rmsec 0 ' + hx(b'sec')], True),
     ('annotate', [STATE], ['setcomment 0 69 %s' % hx(b'first'), 'setcomment 0 69 %s' % hx(b'second'), 'setcomment 0 %s %s' % (hx(b'm=0|a'), hx(b'n'))], True),
     ('paths', [STATE], ['getopt 0 ' + hx(b"m=0|in='x'|z"), 'getsec 0 ' + hx(b't=one'), 'getopt 0 ' + hx(b'm=1|l'), 'size 0 ' + hx(b'sec|l')], True),
+    ('deep-paths', [STATE], ['getsec 0 ' + hx(b'm=0|in=x'), 'getopt 0 ' + hx(b'm=0|in=x|z'), 'getopt 0 ' + hx(b't=one|l'), 'size 0 ' + hx(b'm=0|in=x|z'),
+                             'rmsec 0 ' + hx(b'm=0|in=x'), 'setint 0 %s 6 0' % hx(b't=one|a'), 'rmsec 0 ' + hx(b't=one')], True),
     ('print', [STATE], ['print 0 0', 'printopt 0 736c'], True),
     ('tilde', ['passwd %s %s' % (hx(b'bob'), hx(b'/home/bob'))], ['tilde ' + hx(b'~bob/x'), 'tilde ' + hx(b'plain'), 'tilde ' + hx(b'~nouser')], True),
     ('validate', [STATE], ['validate 0 %s 0' % hx(b'sec|a'), 'validate2 0 %s 0' % hx(b'm|a'), 'printfunc 0 %s 0' % hx(b'i')], True),
@@ -143,3 +145,36 @@ def oracle(scn, il):
 
 
 OOM_TABLE = None
+
+
+def cross_oracle(scns, impl):
+    """the call either completes or reports failure: when every call of the fault window answers exactly as in the
+    fault-free run (k = 0) of the same workload, the state afterwards is the fault-free state"""
+    base = {}
+    for s in scns:
+        if s.meta['k'] == 0 and 'inst' not in s.meta:
+            base[s.meta['workload']] = impl.get(s.id) or []
+    out = []
+    for s in scns:
+        if s.meta['k'] == 0 or 'inst' in s.meta:
+            continue
+        il, b = impl.get(s.id) or [], base.get(s.meta['workload']) or []
+        if not il or 'status=exit:0' not in il[-1] or not b:
+            continue
+        f, a = s.meta['first'], s.meta['after']
+        if len(il) <= a or len(b) <= a:
+            continue
+        # a lookup answers as without the fault or reports that it found nothing; never something else
+        for j in range(f, a - 1):
+            cmd = s.lines[j].split()[0]
+            if cmd in ('getsec', 'getopt', 'size') and j < len(il) and il[j] != b[j]:
+                strip = lambda l: re.sub(r' diags=\[[^\]]*\]', '', l)
+                if strip(il[j]) != strip(b[j]) and not re.search(r'target=null|n=0\b|rc=-1', il[j]):
+                    out.append((s.id, 'oom:wrong-lookup:' + s.meta['workload'], '%s: with allocation #%d failing `%s` answers %s (fault-free: %s)' % (
+                        s.id, s.meta['k'], s.lines[j][:60], il[j][:120], b[j][:120])))
+                    break
+        if il[f:a - 1] == b[f:a - 1] and il[a] != b[a]:
+            i = next((i for i, (x, y) in enumerate(zip(il[a], b[a])) if x != y), 0)
+            out.append((s.id, 'oom:success-but-incomplete:' + s.meta['workload'], '%s: with allocation #%d failing every call reports what it reports without a fault, but the state differs near\n  %s\n  %s' % (
+                s.id, s.meta['k'], il[a][max(0, i - 120):i + 80], b[a][max(0, i - 120):i + 80])))
+    return out
